@@ -48,6 +48,10 @@ claim("C10", "panic-site audit over the resolved MIR call graph with derived dis
       "Every unwrap/expect, panic!-family macro, Index call, bounds/overflow/division assert and panicking std/num-bigint/bitvec API reachable from Machine::run, Program::eval*, read-back and aiken_optimize_and_intern is enumerated on each run (about 870 sites); args[k] sites are discharged by the arity table, the rest must not exceed a reviewed per-function/per-kind table; every unwrapped narrowing of a builtin argument must be preceded by a two-sided range test, a bounding definition or a costing bound; the profiling array covers every builtin discriminant.",
       "termination, stack depth, allocation failure and panics inside dependencies (blst, secp256k1, num-bigint, bitvec) are not decided; the code generator's own invariants on type-checked ASTs are outside the audited entry set; review-table reasons were established by reading", "DESIGN.md §3 C10", "shape+flow")
 
+claim("C09", "reset-completeness (MIR field-write set vs reset assignments), must-pass-through on finalize, hash-order iteration audit with sink classification, sort-key injectivity, serialised-type field audit",
+      "History independence: every CodeGenerator field any method mutates is assigned a fresh value in reset(), reached by finalize on every path with `true`; generate/generate_raw return only through finalize; cache hit replays exactly the recorded deltas. Seed independence: all std HashMap/HashSet iterations (66 today, receiver types resolved in MIR) are classified by their iterator chain; order-sensitive ones must be in a reviewed table; the validator sort keys on the map's own key; no hash map in a serialised blueprint type; rayon sites frozen.",
+      "absence of every other nondeterminism (pointer ordering, optimiser internals, file discovery beyond module sequencing) is not decided; that module check order only reaches erased binder names is an assumption; review reasons were established by reading", "DESIGN.md §3 C09", "shape+flow")
+
 
 def main():
     props = [json.loads(l) for l in open(os.path.join(HERE, "properties.jsonl"))]
